@@ -1,5 +1,116 @@
-import PwVerif.Model.Pool
+import PwVerif.Lemmas.Pool
+/-!
+# C07 — Pool.run yields exactly one result per input under every schedule and death
+
+Model: `PwVerif.Pool` (hand-written, mirrors the closures of `Pool.run`; tied to the code by
+`harness/c07.py`, which drives the **real** `Pool.run` with the same adversary scripts).
+
+Quantifiers: any number of workers, any input list, any `worker_extra_pending_inputs`, any choice
+function for the idle worker, any pre-run deaths, and **every** sequence of adversary events
+(worker answers / dies with or without end marker / the pool reads ready queues in any batches).
+
+Configuration of the theorems (`Plain`): retry on, results returned, no user `enqueue_fn`
+(the `enqueue_fn` livelock is a known finding - `C07_livelock_witness`).
+-/
 namespace PwVerif.C07
 open PwVerif.Pool
-theorem placeholder : True := trivial
+
+/-- **C07 exactly once.** Whenever the run returns normally, its result list is a permutation of the
+    inputs: one result for every input, none missing, none duplicated. -/
+theorem C07_exact (c : Cfg) (hc : Plain c) (pick : List Nat → Option Nat) (hp : PickOK pick)
+    (n : Nat) (src : List Inp) (pre evs : List Ev) (ret : List Inp)
+    (h : outcome (runEvents c pick (start c pick n src pre) evs) = .returned ret) :
+    ret.Perm src := by
+  have hinv := inv_runEvents hc hp evs _ (inv_start hc hp n src pre)
+  generalize runEvents c pick (start c pick n src pre) evs = s at h hinv
+  unfold outcome at h
+  split at h
+  · cases h
+  · split at h
+    · cases h
+    · split at h
+      · rename_i hexit
+        simp only [Outcome.returned.injEq] at h
+        subst h
+        simp only [Bool.and_eq_true, decide_eq_true_eq, List.isEmpty_iff] at hexit
+        obtain ⟨⟨hd, hpend⟩, hretr⟩ := hexit
+        have hsrc := hinv.depl hd
+        -- pending = 0 means every pending list is empty
+        have hlen : ppwLen s = 0 := by
+          have := hinv.pending
+          rw [hpend] at this
+          omega
+        have hzero : ∀ i, ppwCount i s = 0 := by
+          intro i
+          have hall : ∀ x ∈ s.ws, x.ppw = [] := by
+            have : ∀ (l : List Worker), (l.map fun x => x.ppw.length).sum = 0 → ∀ x ∈ l, x.ppw = [] := by
+              intro l
+              induction l with
+              | nil => intro _ x hx; simp at hx
+              | cons a as ih =>
+                intro hs x hx
+                simp only [List.map_cons, List.sum_cons] at hs
+                simp only [List.mem_cons] at hx
+                rcases hx with rfl | hx
+                · exact List.length_eq_zero_iff.mp (by omega)
+                · exact ih (by omega) x hx
+            exact this s.ws hlen
+          have : ∀ (l : List Worker), (∀ x ∈ l, x.ppw = []) → (l.map fun x => x.ppw.count i).sum = 0 := by
+            intro l
+            induction l with
+            | nil => intro _; rfl
+            | cons a as ih =>
+              intro hl
+              simp only [List.map_cons, List.sum_cons]
+              rw [hl a (by simp), ih (fun x hx => hl x (by simp [hx]))]
+              simp
+          exact this s.ws hall
+        apply List.perm_iff_count.mpr
+        intro i
+        have := hinv.cons i
+        simp only [cnt, hsrc, hretr, hzero i, List.count_nil] at this
+        omega
+      · cases h
+
+/-- **C07 no internal error.** No schedule makes the run pop from an empty pending list
+    (the `IndexError` of the code before the fix). -/
+theorem C07_no_internal_error (c : Cfg) (hc : Plain c) (pick : List Nat → Option Nat) (hp : PickOK pick)
+    (n : Nat) (src : List Inp) (pre evs : List Ev) :
+    (runEvents c pick (start c pick n src pre) evs).err ≠ some .popEmpty :=
+  (inv_runEvents hc hp evs _ (inv_start hc hp n src pre)).nopop
+
+/-- Conservation at every moment of every schedule: each input is, with multiplicity, in exactly one of
+    the source, the retry list, some worker's pending list, or the results. -/
+theorem C07_conservation (c : Cfg) (hc : Plain c) (pick : List Nat → Option Nat) (hp : PickOK pick)
+    (n : Nat) (src : List Inp) (pre evs : List Ev) (i : Inp) :
+    let s := runEvents c pick (start c pick n src pre) evs
+    src.count i = s.src.count i + s.retries.count i + ppwCount i s + s.ret.count i := by
+  have := (inv_runEvents hc hp evs _ (inv_start hc hp n src pre)).cons i
+  simpa [cnt] using this
+
+/-- the pending lists always agree with what the workers hold: for a worker not yet declared dead the
+    pool's pending list is exactly (results waiting in its pipe) ++ (inputs it has not processed yet) -/
+theorem C07_fifo_agreement (c : Cfg) (hc : Plain c) (pick : List Nat → Option Nat) (hp : PickOK pick)
+    (n : Nat) (src : List Inp) (pre evs : List Ev) :
+    ∀ x ∈ (runEvents c pick (start c pick n src pre) evs).ws, x.closed = false →
+      x.ppw = resIn x.chan ++ x.inbox ++ x.lost :=
+  fun x hx => ((inv_runEvents hc hp evs _ (inv_start hc hp n src pre)).ws x hx).open_
+
+theorem pickFirst_ok : PickOK pickFirst := by
+  intro l w h
+  cases l with
+  | nil => simp [pickFirst] at h
+  | cons a as => simp [pickFirst] at h; subst h; simp
+
+/-- the `enqueue_fn` livelock (known finding): W0 dies holding input 1, the idle W1 refuses it -/
+theorem C07_livelock_witness :
+    outcome (runEvents { refuse := fun w i => w == 1 && i == 1 } pickFirst
+      (start { refuse := fun w i => w == 1 && i == 1 } pickFirst 2 [1]) [.die 0 true, .poll [0]])
+    = .internal .outOfFuel := by decide +kernel
+
+/-- non-vacuity: a run with a death that still returns everything -/
+example : outcome (runEvents {} pickFirst (start {} pickFirst 2 [1, 2, 3])
+    [.work 0, .die 1 false, .poll [1], .poll [0], .work 0, .poll [0], .work 0, .poll [0]]) = .returned [1, 2, 3] := by
+  decide +kernel
+
 end PwVerif.C07
